@@ -1,3 +1,5 @@
+pub mod clsgrp;
 pub mod factor;
+pub mod lanczos;
 pub mod lattice;
 pub mod relstore;
